@@ -1,3 +1,12 @@
 #!/bin/sh
+# Build the framework from files on disk only (offline): harness in the release and checked profiles,
+# and the cross-backend tool once per arithmetic backend.
 set -e
-cd /verif/harness && CARGO_NET_OFFLINE=true cargo build --release --offline
+export CARGO_NET_OFFLINE=true
+cd /verif/harness
+cargo build --release --offline
+cargo build --profile checked --offline
+cd /verif/xb
+for b in blst rust; do
+  cargo build --release --offline --no-default-features --features $b --target-dir /verif/.target/xb-$b
+done
